@@ -17,7 +17,13 @@ ROOT = os.path.dirname(os.path.dirname(os.path.abspath(__file__)))
 # function -> checks that should notice a behavioural change in it
 READ = ["C03", "C04", "C05", "C06", "C08"]
 WRITE = ["C02", "C10", "C09", "C20"]
+# functions no listed property talks about (error texts, httptrace callbacks, deprecated wrappers' plumbing)
+NO_PROPERTY = r"^(Error|Temporary|Timeout)$"
+
 FUNC_CHECKS = [
+    (r"validReceivedCloseCodes|isValidReceivedCloseCode", ["C04", "C08"]),
+    (r"^isData$|^isControl$", ["C10", "C02", "C04"]),
+    (r"generateChallengeKey|computeAcceptKey", ["C14", "C12"]),
     (r"advanceFrame|NextReader|messageReader|ReadMessage|setReadRemaining|read\b|handleProtocolError|isValidReceivedCloseCode|SetReadLimit|SetCloseHandler|SetPingHandler|SetPongHandler|maskBytes", READ + ["C01"]),
     (r"WriteControl", ["C09", "C10", "C11", "C08", "C02"]),
     (r"write\b|writeBufs|writeFatal", ["C09", "C10", "C11", "C02"]),
@@ -56,6 +62,9 @@ def gen(outdir):
             m = re.match(r"func (\([^)]*\) )?(\w+)", line)
             if m:
                 fn = m.group(2)
+            m = re.match(r"var (\w+)", line)
+            if m:
+                fn = m.group(1)
             st = line.strip()
             if not fn or st.startswith("//") or "verifGate" in st or "verifWire" in st or not st:
                 continue
@@ -183,7 +192,11 @@ def run(outdir):
         m = json.load(open(os.path.join(outdir, mid, "meta.json")))
         verdict = "UNDETECTED"
         tried = []
-        for c in checks_for(m["func"]):
+        if re.search(NO_PROPERTY, m["func"]) or "trace." in m["old"] or "trace != nil" in m["old"]:
+            with open(resf, "a") as f:
+                f.write("%s NO-PROPERTY %s:%d %s | %s -> %s |\n" % (mid, m["file"], m["line"], m["func"], m["old"], m["new"]))
+            continue
+        for c in checks_for(m["func"])[:4]:
             p = subprocess.run([os.path.join(ROOT, "tools", "trymutant.sh"), os.path.join(outdir, mid, "patch.diff"), c], capture_output=True, text=True)
             last = p.stdout.strip().split("\n")[-1]
             tried.append("%s:%s" % (c, last.replace("exit=", "")))
